@@ -62,7 +62,9 @@ def gen_world(rng, npels=None, fault_rate=None):
         # component (different sub-dispatch targets) meet in one process
         pool = None
         if c == "O":
-            pool = ["%s%s%04X" % (h, cc, rng.randrange(0x10000)) for h in ("BD", "BC", "11", "BD") for cc in rng.sample(["8D", "20", "75", "E5"], 2)]
+            # ... and few reason codes, so that the same reason code occurs under different SRC types
+            rcs = ["%04X" % rng.randrange(0x10000) for _ in range(2)]
+            pool = ["%s%s%s" % (h, cc, rng.choice(rcs)) for h in ("BD", "BC", "11", "BD") for cc in rng.sample(["8D", "20", "75", "E5"], 2)]
         r = pelgen.gen_pel(rng, eid=eid, creator=c, ud_targets=targets, max_sections=7, want_class="serviceable",
                            refcode_pool=pool)
         pels.append({"name": common.bmc_name(r), "recipe": r})
